@@ -966,10 +966,152 @@ impl Mut {
         }
     }
 
+    /// C09: `cycles` rounds of {allocate `fill_pct` % of the heap and keep all of it reachable,
+    /// drop every reference, force an exhaustive GC, read used_bytes}.
+    fn run_cycles(&mut self, cycles: u64) {
+        let w = world();
+        let cfg = w.cfg.clone();
+        let heap = cfg.heap_mb << 20;
+        let budget = heap / 100 * cfg.fill_pct;
+        let floor = heap / 4; // the stated constant: a quarter of the heap
+        let mut series: Vec<usize> = vec![];
+        let oom0 = oom_count();
+        for c in 0..cycles {
+            if w.done.load(Ordering::Relaxed) {
+                return;
+            }
+            w.last_progress.fetch_add(1, Ordering::Relaxed);
+            let profile = (c % 7) as u8;
+            let mut bytes = 0usize;
+            let mut objs = 0u64;
+            let mut los_bytes = 0usize;
+            let mut root = 0usize;
+            let mut in_root = 0usize;
+            let t = SCRATCH;
+            while bytes < budget {
+                world::safepoint_poll();
+                w.counters.ops.fetch_add(1, Ordering::Relaxed);
+                let (mut size, _n, mut sem, _k, fl, al, off) = self.random_shape();
+                if never_collected(sem) {
+                    sem = SEM_DEFAULT; // never reclaimed by definition: not part of "garbage"
+                }
+                match profile {
+                    0 => {
+                        sem = SEM_DEFAULT;
+                        size = 32 + 8 * self.rng.usize_below(16);
+                    }
+                    1 => {
+                        if sem == SEM_DEFAULT {
+                            size = 160 + 8 * self.rng.usize_below(480);
+                        }
+                    }
+                    2 => {} // the general boundary-heavy mix
+                    3 => {
+                        // half of the bytes in large objects
+                        if los_bytes * 2 < bytes + 1 && !cfg.off("los") {
+                            sem = SEM_LOS;
+                            size = gen_los_size(&mut self.rng, self.max_default);
+                        }
+                    }
+                    4 => {
+                        // around an Immix line / a block
+                        if sem == SEM_DEFAULT {
+                            size = (256 * (1 + self.rng.usize_below(12)) + 8 * self.rng.usize_below(5)).saturating_sub(16).min(self.max_default.min(32 << 10)) & !7;
+                        }
+                    }
+                    5 => {
+                        // alternating tiny and big: fragments blocks
+                        if sem == SEM_DEFAULT {
+                            size = if objs % 2 == 0 { 32 } else { 2048 + 8 * self.rng.usize_below(256) };
+                        }
+                    }
+                    _ => {
+                        // one size class only, different one per cycle
+                        if sem == SEM_DEFAULT {
+                            size = 40 + 8 * ((c / 7) as usize % 120);
+                        }
+                    }
+                }
+                if sem == SEM_DEFAULT && cfg.plan == "MarkSweep" {
+                    size = size.min(self.max_default - ((1usize << al) - 8));
+                }
+                let size = size.max(HEADER_BYTES + 8);
+                let size = if cfg.plan == "PageProtect" { size.min(64 << 10) } else { size };
+                if bytes + size > budget + (64 << 10) && bytes > 0 {
+                    break;
+                }
+                if self.alloc_into_root(t, size, 1, sem, KIND_NORMAL, fl & !FLAG_TRACE_SCAN, al, off) == 0 {
+                    violation("C09", format!("out-of-memory:while-filling-{}-percent-of-the-heap", cfg.fill_pct), format!("cycle {} (profile {}): allocation of {} bytes (sem {}) failed after {} bytes in {} objects; used_bytes after the previous cycles: {:?}", c, profile, size, sem, bytes, objs, &series[series.len().saturating_sub(6)..]));
+                    return;
+                }
+                // t.next = roots[root]; roots[root] = t
+                if in_root > 0 {
+                    self.write_field(t, 0, Some(root));
+                }
+                self.copy_root(root, t);
+                in_root += 1;
+                if in_root >= 4000 {
+                    root = (root + 1) % GEN_ROOTS;
+                    in_root = 0;
+                    // a full rotation never happens: 36 roots x 4000 objects x >= 40 bytes
+                }
+                // PageProtect and the LOS give every object its own pages: the heap fills by pages
+                bytes += if cfg.plan == "PageProtect" || sem == SEM_LOS { (size + 8 + 4095) & !4095 } else { size };
+                objs += 1;
+                if sem == SEM_LOS {
+                    los_bytes += size;
+                }
+            }
+            self.drop_root(t);
+            if oom_count() != oom0 {
+                violation("C09", "out-of-memory:callback", format!("Collection::out_of_memory was called in cycle {}", c));
+                return;
+            }
+            let used_full = memory_manager::used_bytes(w.mmtk);
+            for r in 0..NROOTS {
+                self.drop_root(r);
+            }
+            self.op_user_gc(true);
+            let used = memory_manager::used_bytes(w.mmtk);
+            series.push(used);
+            if used > floor {
+                violation("C09", "used-bytes-after-exhaustive-gc-above-floor", format!("cycle {} (profile {}): used_bytes = {} after an exhaustive GC with an empty root set, floor = heap/4 = {} (series so far {:?})", c, profile, used, floor, &series[series.len().saturating_sub(8)..]));
+            }
+            with_report("C09", |r| {
+                r.evaluations += 1;
+                r.count("cycles", 1);
+                r.count("bytes_allocated_mb", (bytes >> 20) as u64);
+                r.count("objects_allocated", objs);
+                r.count(&format!("cycles_profile_{}", profile), 1);
+                r.set_max("max_used_kb_after_gc", (used >> 10) as u64);
+                r.set_max("max_used_kb_when_full", (used_full >> 10) as u64);
+                r.key(mix(0xC09, mix(profile as u64, ((used >> 12) as u64).next_power_of_two())));
+                if r.want_sample() && c % 5 == 0 {
+                    r.sample(J::obj(vec![("plan", J::s(cfg.plan.clone())), ("cycle", J::i(c)), ("profile", J::i(profile as u64)), ("objects", J::i(objs)), ("bytes", J::i(bytes as u64)), ("used_when_full", J::i(used_full as u64)), ("used_after_gc", J::i(used as u64))]));
+                }
+            });
+        }
+        // absence of growth: the second half of the run must not sit above the first half
+        if series.len() >= 12 {
+            let warm = 3;
+            let mid = warm + (series.len() - warm) / 2;
+            let a = *series[warm..mid].iter().max().unwrap();
+            let b = *series[mid..].iter().max().unwrap();
+            let slack = 1 << 20;
+            if b > a + slack {
+                violation("C09", "used-bytes-after-gc-grows", format!("max used_bytes after GC: cycles {}..{}: {}, cycles {}..{}: {} (slack {}); series tail {:?}", warm, mid, a, mid, series.len(), b, slack, &series[series.len() - 8..]));
+            }
+            with_report("C09", |r| r.count("growth_checks", 1));
+        }
+    }
+
     /// Run `ops` operations.
     pub fn run(&mut self, ops: u64) {
         let w = world();
         let cfg = w.cfg.clone();
+        if cfg.scenario == "cycles" {
+            return self.run_cycles(ops);
+        }
         if cfg.scenario == "fork" && self.idx != 0 {
             return self.run_gc_requester(ops);
         }
